@@ -85,9 +85,10 @@ CLAIMS = {
         design="5/C07"),
     "C09": dict(
         text=("Props/C09.lean: dependent_join_via_magic - evaluating a subquery once per distinct correlation value and joining back on that value equals nested evaluation per outer row, for duplicate and NULL "
-              "correlation values (the identity behind decorrelation), and EXISTS as a semi join. Tie: correlated EXISTS/NOT EXISTS/scalar aggregates/HAVING/two correlated columns/nesting depth 2 against Sem "
-              "(which evaluates per outer row); CTEs (plain, MATERIALIZED, 1-3 references) and views against the inlined body; five known findings are probed on their specific inputs."),
-        note=TB + "the theorem's join-back uses NULL-safe equality; the engine uses `=` (known finding F37); plan_subquery.rs itself is tied by the differential runs, not modelled rule by rule.",
+              "correlation values (the identity behind decorrelation), and EXISTS as a semi join; join_back_not_distinct_sound (the plan with IS NOT DISTINCT FROM is that identity) and join_back_sql_eq_loses_null_rows "
+              "(the pinned commit joined back with `=` and lost outer rows with a NULL correlation value: F37, repaired). Tie: correlated EXISTS/NOT EXISTS/scalar aggregates/HAVING/two correlated columns/nesting depth 2 against Sem "
+              "(which evaluates per outer row); CTEs (plain, MATERIALIZED, 1-3 references) and views against the inlined body; four known findings are probed on their specific inputs."),
+        note=TB + "the theorem's join-back uses NULL-safe equality, as the repaired engine does; plan_subquery.rs itself is tied by the differential runs, not modelled rule by rule.",
         technique="Lean proof (magic-set decorrelation identity) + correlated-subquery differential against nested evaluation (Sem)",
         design="5/C09"),
     "C20": dict(
